@@ -10,6 +10,7 @@ import Pog.Drv.Surface
 import Pog.Drv.Sinks
 import Pog.Drv.GenCode
 import Pog.Drv.Conv
+import Pog.Drv.Parser
 /-
   Line protocol: one JSON request per line on stdin, one JSON reply per line on stdout.
     request  {"f": <function>, "a": [<args>], "u": {<codepoint>: {"w":bool,"d":bool,"l":str,"U":str,"iu":bool}}}
@@ -30,7 +31,8 @@ def dispatchers : List Dispatch := [
   dispatchSurface,
   dispatchSinks,
   dispatchGenCode,
-  dispatchConv
+  dispatchConv,
+  dispatchParser
 ]
 
 def dispatch (f : String) (a : Array Json) (u : UInfo) : Except String Json :=
